@@ -776,6 +776,27 @@ fn build_items(args: &Args, out: &mut Out) -> Vec<Item> {
             push("cte-cycles", d, sel, rng.chance(1, 2), sql, "cte-cycles".into());
         }
     }
+    // 14. odd comment shapes (the noqa scan and the lexer's comment cutting see every comment before any rule runs) and
+    //     scripting blocks nested in one another (the fixtures only have flat scripts)
+    {
+        let comments = ["/*/", "/**/", "/*", "*/", "/* */", "/*/ noqa */", "/*/\n * text\n */", "/* noqa */", "/*noqa*/", "/*\n*/", "--", "-- ", "/* a */ /* b */", "/*/*/",
+                        "/* /* nested */ */", "-- noqa: /*", "/* -- noqa */", "#", "# noqa", "/*/ noqa: disable=all", "/* noqa: enable=all */*/", "--noqa:*/", "/*\n\n*/", "/* \r\n */"];
+        for d in DIALECTS {
+            for (i, c) in comments.iter().enumerate() {
+                push("comment-shapes", d, if i % 2 == 0 { "all" } else { "core" }, i % 3 != 0, format!("{}\n", c), "comment-shapes".into());
+                push("comment-shapes", d, "all", i % 2 == 0, format!("SELECT a {} FROM t\n", c), "comment-shapes".into());
+                push("comment-shapes", d, "core", i % 2 == 1, format!("{}\nSELECT a FROM t\n{}", c, c), "comment-shapes".into());
+            }
+            let blocks: [(&str, &str); 6] = [("IF TRUE THEN", "END IF;"), ("LOOP", "END LOOP;"), ("REPEAT", "UNTIL TRUE END REPEAT;"), ("WHILE TRUE DO", "END WHILE;"),
+                                             ("BEGIN", "END;"), ("FOR r IN (SELECT 1) DO", "END FOR;")];
+            for (k, (oa, ca)) in blocks.iter().enumerate() {
+                for (j, (ob, cb)) in blocks.iter().enumerate() {
+                    push("nested-blocks", d, if (k + j) % 2 == 0 { "all" } else { "core" }, (k + j) % 3 != 0, format!("{oa}\n  {ob}\n    SELECT 1;\n  {cb}\n  SELECT 2;\n{ca}\n"), "nested-blocks".into());
+                }
+                push("nested-blocks", d, "all", true, format!("{oa}\n  {oa}\n    {oa}\n      SELECT 1;\n    {ca}\n  {ca}\n{ca}\nSELECT 3;\n"), "nested-blocks".into());
+            }
+        }
+    }
     // 11. grammar-driven sentences: for every grammar node reachable from FileSegment in each dialect, a shortest
     //     token sequence that leads the parser to it (complete / cut after the node / foreign token at the node)
     let mut gstats = vec![];
